@@ -1,6 +1,8 @@
 // C22: printing a synthesized tree preserves its structure.
-// Mode E: every expression tree over 4 leaves and 60 node-building shapes up to a depth bound (no
-// positions, no ParenExpr), alone and inside six statement forms and three control clauses.
+// Mode E: every expression tree over 4 leaves and 56 node-building shapes (37 with one operand, 19 with two) up to a depth bound (no
+// positions, no ParenExpr), alone and inside twelve statement forms and three control clauses.
+// Workers only count; the parent re-evaluates one canonical minimal case per defect key in sorted
+// order, so that the printed violations and replay files are the same on every run.
 // Premise (well-formed): a fully parenthesised reference rendering of the tree parses back to the tree.
 // Oracle: printer.Fprint output parses, and the result equals the tree modulo ParenExpr nodes.
 package main
@@ -75,7 +77,9 @@ var forms = []*form{
 		Build: func(x, y ast.Expr) ast.Stmt {
 			return &ast.AssignStmt{Lhs: []ast.Expr{id("z"), id("w")}, Tok: token.DEFINE, Rhs: []ast.Expr{x, y}}
 		},
-		Refs: func(x, y, bx, by string) []string { return []string{"z, w := " + bx + ", " + by, "z, w := " + x + ", " + y} }},
+		Refs: func(x, y, bx, by string) []string {
+			return []string{"z, w := " + bx + ", " + by, "z, w := " + x + ", " + y}
+		}},
 	{Name: "assignlhs", Holes: 1, Kind: "AssignStmt", Field: []string{"Lhs"},
 		Build: func(x, _ ast.Expr) ast.Stmt {
 			return &ast.AssignStmt{Lhs: []ast.Expr{x}, Tok: token.ASSIGN, Rhs: []ast.Expr{id("z")}}
@@ -95,7 +99,9 @@ var forms = []*form{
 		Refs:  func(x, _, bx, _ string) []string { return []string{"return " + bx, "return " + x} }},
 	{Name: "return2", Holes: 2, Kind: "ReturnStmt", Field: []string{"Results", "Results"},
 		Build: func(x, y ast.Expr) ast.Stmt { return &ast.ReturnStmt{Results: []ast.Expr{x, y}} },
-		Refs:  func(x, y, bx, by string) []string { return []string{"return " + bx + ", " + by, "return " + x + ", " + y} }},
+		Refs: func(x, y, bx, by string) []string {
+			return []string{"return " + bx + ", " + by, "return " + x + ", " + y}
+		}},
 	{Name: "if", Holes: 1, Kind: "IfStmt", Field: []string{"Cond"},
 		Build: func(x, _ ast.Expr) ast.Stmt { return &ast.IfStmt{Cond: x, Body: &ast.BlockStmt{}} },
 		Refs:  func(x, _, bx, _ string) []string { return []string{"if (" + bx + ") {\n}", "if " + bx + " {\n}"} }},
@@ -104,7 +110,9 @@ var forms = []*form{
 		Refs:  func(x, _, bx, _ string) []string { return []string{"for (" + bx + ") {\n}", "for " + bx + " {\n}"} }},
 	{Name: "switch", Holes: 1, Kind: "SwitchStmt", Field: []string{"Tag"},
 		Build: func(x, _ ast.Expr) ast.Stmt { return &ast.SwitchStmt{Tag: x, Body: &ast.BlockStmt{}} },
-		Refs:  func(x, _, bx, _ string) []string { return []string{"switch (" + bx + ") {\n}", "switch " + bx + " {\n}"} }},
+		Refs: func(x, _, bx, _ string) []string {
+			return []string{"switch (" + bx + ") {\n}", "switch " + bx + " {\n}"}
+		}},
 }
 
 var formByName = map[string]*form{}
@@ -411,7 +419,68 @@ func parenFixes(k Case) bool {
 }
 
 // eval returns the failure of one case, keyed by the minimal (outer, inner) node-kind combination.
-func eval(k Case) (*engine.Failure, string) {
+type failure struct {
+	*engine.Failure
+	min Case // the minimised, canonical case (what the replay file carries)
+}
+
+// signature: the defect signature of a minimal failing case (see kinds).
+func signature(m Case) string {
+	if m.Form == "expr" {
+		return kinds(m.Tree)
+	}
+	f := formByName[m.Form]
+	parts := []string{}
+	if len(m.Tree.K) > 0 {
+		parts = append(parts, f.Field[0]+"="+innermost(m.Tree, 0))
+	}
+	if m.Y != nil && len(m.Y.K) > 0 {
+		parts = append(parts, f.Field[1]+"="+innermost(m.Y, 0))
+	}
+	return f.Kind + "(" + strings.Join(parts, ",") + ")"
+}
+
+// canonical replaces every node of a minimal failing case by the first shape of the same node kind,
+// arity and child fields (and every leaf by a) as long as the case keeps failing with the same
+// signature, so that one defect is represented by one case whatever input revealed it.
+func canonical(m Case) Case {
+	sig := signature(m)
+	keeps := func(c Case) bool { // still failing, same signature, and still minimal (else the replacement switched to another defect)
+		return judgeMemo(c).status == "fail" && signature(c) == sig && minimise(c, "").String() == c.String()
+	}
+	var visit func(t *T)
+	visit = func(t *T) {
+		cur := shapeByName[t.S]
+		for _, alt := range shapes {
+			if alt == cur {
+				break
+			}
+			if alt.Kind != cur.Kind || alt.Arity != cur.Arity || strings.Join(alt.Fields, ",") != strings.Join(cur.Fields, ",") {
+				if !(cur.Arity == 0 && alt.Arity == 0) {
+					continue
+				}
+			}
+			old := t.S
+			t.S = alt.Name
+			if keeps(m) {
+				break
+			}
+			t.S = old
+		}
+		for _, c := range t.K {
+			visit(c)
+		}
+	}
+	m = Case{Form: m.Form, Tree: clone(m.Tree), Y: m.Y}
+	if m.Y != nil {
+		m.Y = clone(m.Y)
+		visit(m.Y)
+	}
+	visit(m.Tree)
+	return m
+}
+
+func eval(k Case) (*failure, string) {
 	v := judge(k)
 	if v.status != "fail" {
 		return nil, v.status
@@ -422,30 +491,80 @@ func eval(k Case) (*engine.Failure, string) {
 	if k.Form != "expr" && len(k.Tree.K) > 0 && judgeMemo(Case{Form: "expr", Tree: k.Tree}).status == "fail" {
 		return nil, "fails_inherited_from_subtree"
 	}
-	m := minimise(k, v.what)
+	m := canonical(minimise(k, v.what))
 	mv := judge(m)
 	class := "roundtrip"
-	if strings.HasPrefix(v.what, "panic@") {
-		class = v.what
+	if strings.HasPrefix(mv.what, "panic@") {
+		class = mv.what
 	} else if parenFixes(m) {
 		class = "lost-parens"
 	}
-	var key string
-	if m.Form == "expr" {
-		key = class + ":" + kinds(m.Tree)
-	} else {
-		f := formByName[m.Form]
-		parts := []string{}
-		if len(m.Tree.K) > 0 {
-			parts = append(parts, f.Field[0]+"="+innermost(m.Tree, 0))
-		}
-		if m.Y != nil && len(m.Y.K) > 0 {
-			parts = append(parts, f.Field[1]+"="+innermost(m.Y, 0))
-		}
-		key = class + ":" + f.Kind + "(" + strings.Join(parts, ",") + ")"
+	key := class + ":" + signature(m)
+	what := map[string]string{"reparse-fails": "does not parse", "tree-differs": "parses to a different tree", "print-error": "could not be produced"}[mv.what]
+	if what == "" {
+		what = "could not be produced: " + mv.what
 	}
-	return &engine.Failure{Key: key, What: "printed source " + map[string]string{"reparse-fails": "does not parse", "tree-differs": "parses to a different tree", "print-error": "could not be produced"}[mv.what],
-		Detail: fmt.Sprintf("minimal tree %s (found as %s)\nreference source %q\nprinter output  %q\n%s", m.String(), k.String(), mv.ref, strings.TrimSpace(mv.out), mv.detail)}, "fail"
+	return &failure{&engine.Failure{Key: key, What: "printed source " + what,
+		Detail: fmt.Sprintf("minimal tree %s\nreference source %q\nprinter output  %q\n%s", m.String(), mv.ref, strings.TrimSpace(mv.out), mv.detail)}, m}, "fail"
+}
+
+// parseCase is the inverse of Case.String.
+func parseCase(s string) (Case, error) {
+	form, rest, ok := strings.Cut(s, ":")
+	if !ok || (form != "expr" && formByName[form] == nil) {
+		return Case{}, fmt.Errorf("bad form")
+	}
+	pos := 0
+	var parse func() (*T, error)
+	parse = func() (*T, error) {
+		start := pos
+		for pos < len(rest) && !strings.ContainsRune("(),;", rune(rest[pos])) {
+			pos++
+		}
+		t := &T{S: rest[start:pos]}
+		if shapeByName[t.S] == nil {
+			return nil, fmt.Errorf("unknown shape %q", t.S)
+		}
+		if pos < len(rest) && rest[pos] == '(' {
+			for {
+				pos++ // '(' or ','
+				c, err := parse()
+				if err != nil {
+					return nil, err
+				}
+				t.K = append(t.K, c)
+				if pos >= len(rest) {
+					return nil, fmt.Errorf("unterminated")
+				}
+				if rest[pos] == ')' {
+					pos++
+					break
+				}
+				if rest[pos] != ',' {
+					return nil, fmt.Errorf("unexpected %q", rest[pos])
+				}
+			}
+		}
+		if len(t.K) != shapeByName[t.S].Arity {
+			return nil, fmt.Errorf("arity of %s", t.S)
+		}
+		return t, nil
+	}
+	k := Case{Form: form}
+	var err error
+	if k.Tree, err = parse(); err != nil {
+		return k, err
+	}
+	if pos < len(rest) && rest[pos] == ';' {
+		pos++
+		if k.Y, err = parse(); err != nil {
+			return k, err
+		}
+	}
+	if pos != len(rest) {
+		return k, fmt.Errorf("trailing text")
+	}
+	return k, nil
 }
 
 // ---------------------------------------------------------------------------------------------
@@ -646,7 +765,10 @@ func main() {
 		var k Case
 		c.LoadReplay(&k)
 		f, _ := eval(k)
-		c.ReplayResult(f)
+		if f == nil {
+			c.ReplayResult(nil)
+		}
+		c.ReplayResult(f.Failure)
 	}
 	bl := blocks(c.Thorough())
 	job := &engine.Job{NumBlocks: len(bl)}
@@ -674,8 +796,8 @@ func main() {
 			case "fail":
 				w.Nontrivial()
 				w.Hist("fails")
-				w.Hist("key:" + f.Key)
-				w.Fail(k, f)
+				// reported by the parent in sorted order (deterministic output): key and canonical case travel in the histogram
+				w.Hist("case:" + f.Key + "\t" + f.min.String())
 			}
 			if n%997 == 5 {
 				w.Sample(k.String())
@@ -703,6 +825,36 @@ func main() {
 	job.Run(c)
 	// keep the evidence small: per-shape exclusion counts are summarised
 	hs := c.HistSnapshot()
+	byKey := map[string][]string{}
+	for h, n := range hs {
+		if rest, ok := strings.CutPrefix(h, "case:"); ok {
+			key, cs, _ := strings.Cut(rest, "\t")
+			byKey[key] = append(byKey[key], cs)
+			c.Hist("key:"+key, n)
+		}
+	}
+	c.DropHist("case:")
+	var keys []string
+	for k := range byKey {
+		keys = append(keys, k)
+	}
+	sort.Strings(keys)
+	for _, key := range keys {
+		cs := byKey[key]
+		sort.Slice(cs, func(i, j int) bool { return len(cs[i]) < len(cs[j]) || len(cs[i]) == len(cs[j]) && cs[i] < cs[j] })
+		k, err := parseCase(cs[0])
+		if err != nil {
+			c.Fatal("case %q: %v", cs[0], err)
+		}
+		f, _ := eval(k)
+		if f == nil {
+			c.Fatal("case %q failed in a worker but not in the parent", cs[0])
+		}
+		if f.Key != key {
+			c.Fatal("case %q: key %q in a worker, %q in the parent", cs[0], key, f.Key)
+		}
+		c.Violate(f.min, f.Failure)
+	}
 	var ex []string
 	for k, v := range hs {
 		if strings.HasPrefix(k, "excluded_not_expressible:") {
